@@ -549,3 +549,45 @@ Section Gates2.
     split; [exact L|]. exists cons, pf, pt. auto 10.
   Qed.
 End Gates2.
+
+
+(** * Admissible configurations (ClientState.Validate since fix d656e11) *)
+Lemma client_validate_trust_level cs :
+  client_validate cs = true ->
+  (cs_tl_num cs < 9223372036854775808)%N /\ (cs_tl_den cs < 9223372036854775808)%N /\
+  (0 < cs_tl_den cs)%N /\ (cs_tl_den cs <= 3 * cs_tl_num cs)%N /\ (cs_tl_num cs <= cs_tl_den cs)%N.
+Proof.
+  unfold client_validate, client_validate_with, trust_level_valid. intro H.
+  repeat (apply andb_true_iff in H as [H ?]).
+  match goal with X : negb _ = true |- _ => apply negb_true_iff in X; apply orb_false_iff in X as [X Z0]; apply orb_false_iff in X as [X1 X2] end.
+  apply N.ltb_ge in X1, X2. apply N.eqb_neq in Z0.
+  assert (M : ((cs_tl_num cs * 3) mod two64N <= cs_tl_num cs * 3)%N) by (apply N.mod_le; unfold two64N; lia).
+  lia.
+Qed.
+
+Section Validated.
+  Variable valset_hash : list (pubkey * Z) -> bytes.
+  Variable header_hash : pheader -> bytes.
+  Variable verify_sig : pubkey -> bytes -> pcommit -> nat -> bool.
+
+  (** for a configuration admitted by Validate the trust-level clause needs no side condition *)
+  Lemma accept_sound_validated cs s hdr now r :
+    wf_header hdr -> client_validate cs = true ->
+    check_header_and_update_state valset_hash header_hash verify_sig cs s hdr now = Ok r ->
+    forall sh h c tvals ttot,
+    h_signed hdr = Some sh -> sh_header sh = Some h -> sh_commit sh = Some c ->
+    valset_from_proto (h_trusted_vals hdr) = Ok (tvals, ttot) ->
+    hd_height h <> Z.of_N (h_hgt (h_trusted_height hdr)) + 1 ->
+    Z.of_N (cs_tl_den cs) * signed_trusted verify_sig (hd_chain_id h) c (hash_input tvals)
+    > Z.of_N (cs_tl_num cs) * total_of (hash_input tvals).
+  Proof.
+    intros Hwf Hv H sh h c tvals ttot Es Eh Ec Etv Nadj.
+    apply chus_accept_sound in H; [|exact Hwf].
+    destruct H as (tc & tvals' & ttot' & sh' & h' & c' & vals' & tot' & hrev & F).
+    destruct F as (_ & Ftv & _ & Fs & Fh & Fc & _ & _ & _ & _ & _ & _ & _ & _ & _ & _ & _ & _ & _ & Fn).
+    rewrite Es in Fs. inversion Fs; subst sh'. rewrite Eh in Fh. inversion Fh; subst h'.
+    rewrite Ec in Fc. inversion Fc; subst c'. rewrite Etv in Ftv. inversion Ftv; subst tvals' ttot'.
+    destruct (client_validate_trust_level cs Hv) as (Hn & Hd & _).
+    exact (Fn Nadj Hn Hd).
+  Qed.
+End Validated.
